@@ -123,6 +123,21 @@ fn view_oracle(c: &View) -> Verdict {
         fl!("to_unix_milliseconds", e.to_unix_milliseconds(), u - unix0, 1_000_000);
         fl!("to_unix_days", e.to_unix_days(), u - unix0, NS_D);
     }
+    // ET / TDB views: float accessors against the library's own Duration-valued conversion (its accuracy is C07's)
+    let et = count(lib!(e.to_et_duration()));
+    let tdb = count(lib!(e.to_tdb_duration()));
+    let jd_j2000 = 2_451_545 * NS_D;
+    dur_eq!("to_jde_et_duration", e.to_jde_et_duration(), et + jd_j2000);
+    dur_eq!("to_jde_tdb_duration", e.to_jde_tdb_duration(), tdb + jd_j2000);
+    fl!("to_et_seconds", e.to_et_seconds(), et, NS_S);
+    fl!("to_tdb_seconds", e.to_tdb_seconds(), tdb, NS_S);
+    fl!("to_et_days_since_j2000", e.to_et_days_since_j2000(), et, NS_D);
+    fl!("to_et_centuries_since_j2000", e.to_et_centuries_since_j2000(), et, NPC);
+    fl!("to_tdb_days_since_j2000", e.to_tdb_days_since_j2000(), tdb, NS_D);
+    fl!("to_tdb_centuries_since_j2000", e.to_tdb_centuries_since_j2000(), tdb, NPC);
+    fl!("to_jde_et_days", e.to_jde_et_days(), et + jd_j2000, NS_D);
+    fl!("to_jde_et(unit)", e.to_jde_et(unit), et + jd_j2000, un);
+    fl!("to_jde_tdb_days", e.to_jde_tdb_days(), tdb + jd_j2000, NS_D);
     let class = if c.e.c < 0 { "negative-count" } else if c.e.s != S_TAI { "scale!=TAI" } else if tai.abs() / un > (1i128 << 53) { ">2^53-in-unit" } else { "plain" };
     Verdict::Pass(class, class != "plain")
 }
@@ -203,7 +218,7 @@ fn ctor_oracle(c: &Ctor) -> Verdict {
 
 pub fn subs() -> Vec<Box<dyn DynSub>> {
     vec![
-        sub(Sub { name: "c17.views", source: Source::Gen(view_strategy, 400_000, 10_000_000), oracle: view_oracle, known: no_known, hang_is_violation: false }),
-        sub(Sub { name: "c17.constructors", source: Source::Gen(ctor_strategy, 400_000, 10_000_000), oracle: ctor_oracle, known: no_known, hang_is_violation: false }),
+        sub(Sub { name: "c17.views", source: Source::Gen(view_strategy, 2_000_000, 10_000_000), oracle: view_oracle, known: no_known, hang_is_violation: false }),
+        sub(Sub { name: "c17.constructors", source: Source::Gen(ctor_strategy, 2_000_000, 10_000_000), oracle: ctor_oracle, known: no_known, hang_is_violation: false }),
     ]
 }
